@@ -43,7 +43,7 @@ static int32_t count_leaves(const parquet_schema_element_t* elements, int32_t co
  * Recursive schema traversal context for computing definition/repetition levels.
  */
 typedef struct {
-    const parquet_schema_element_t* elements;
+    parquet_schema_element_t* elements;
     int32_t num_elements;
     int16_t* max_def;
     int16_t* max_rep;
@@ -94,6 +94,10 @@ static int32_t traverse_schema_recursive(
         }
     }
 
+    /* Every node knows its own accumulated levels (carquet_schema_node_max_*_level) */
+    ctx->elements[element_idx].max_def_level = this_def;
+    ctx->elements[element_idx].max_rep_level = this_rep;
+
     if (elem->num_children == 0) {
         /* Leaf node - record the accumulated levels */
         ctx->max_def[ctx->leaf_idx] = this_def;
@@ -134,7 +138,7 @@ static int32_t traverse_schema_recursive(
  *       └── g (optional, int32)    -> def=2, rep=1  (from e + self)
  */
 static void compute_levels(
-    const parquet_schema_element_t* elements,
+    parquet_schema_element_t* elements,
     int32_t num_elements,
     int16_t* max_def,
     int16_t* max_rep,
